@@ -83,3 +83,10 @@ func (ts *TermStore) eqHashConst(a, b *Term) *Term {
 	}
 	return nil
 }
+
+func (ts *TermStore) minSliceBits() int {
+	if ts.MinSliceBits > 0 {
+		return ts.MinSliceBits
+	}
+	return 64
+}
